@@ -36,7 +36,8 @@ type DrvCase struct {
 	// absent), bit 2 = a new empty schema "extra" is created, bit 3 = an object the inspector does not
 	// report (a view) is created over the table of bit 0 / bit 4 (PostgreSQL refuses to drop a table others
 	// depend on unless CASCADE is given), bit 4 = two tables whose foreign keys reference each other
-	// are created in the first schema.
+	// are created in the first schema, bit 5 = the replayed statements end with `USE <second schema>`
+	// (MySQL, bound connection): the session's current database is no longer the bound one.
 	Replay int `json:"replay"`
 	// Op: "" = Snapshot, replay, restore (above); "normalize" = the driver's own NormalizeSchema (bound
 	// connection) / NormalizeRealm (unbound) of a one-table desired state: the command takes the
@@ -130,11 +131,16 @@ type mockDB struct {
 	problems      []string
 	applied       []string
 	calls, fail   int
+	// session: the database the session was switched to by a replayed `USE` ("" = still the bound one).
+	session string
 }
 
 func (m *mockDB) InspectSchema(_ context.Context, name string, _ *schema.InspectOptions) (*schema.Schema, error) {
 	if name == "" {
 		name = m.bound
+		if m.session != "" {
+			name = m.session
+		}
 	}
 	if _, ok := m.cat[name]; !ok || name == "" {
 		return nil, &schema.NotExistError{Err: fmt.Errorf("schema %q was not found", name)}
@@ -489,6 +495,9 @@ func EvalDriver(c DrvCase) (problems []string, outcome string) {
 			m.deps[names[0]+".cyc_a"] = true
 		}
 	}
+	if c.Replay&32 != 0 {
+		m.session = names[1] // the last replayed statement is `USE other`
+	}
 	after := m.cat.clone()
 	if err := restore(context.Background()); err != nil {
 		bad("restore failed: %v", err)
@@ -517,8 +526,11 @@ func drvCases() []DrvCase {
 					continue // CockroachDB has no database without the schema public (it cannot be dropped)
 				}
 				for _, b := range []bool{false, true} {
-					for rp := 0; rp < 32; rp++ {
-						if b && rp&^25 != 0 {
+					for rp := 0; rp < 64; rp++ {
+						if rp&32 != 0 && !(d == "mysql" && b && s1 > 0) {
+							continue // `USE`: MySQL sessions, the other schema exists
+						}
+						if b && rp&^(25|32) != 0 {
 							continue // a bound connection replays into its own schema only
 						}
 						if rp&8 != 0 && (rp&17 == 0 || d == "mysql") {
